@@ -107,6 +107,35 @@ m("M06i_aesv2_rc4", ["C06"], [("pdf/src/crypt.rs", "                    CryptMet
    "                    CryptMethod::V2 | CryptMethod::AESV2 => (\n                        default.length.map(|n| 8 * n).unwrap_or(dict.bits),\n                        CryptMethod::V2,\n                    ),")],
   expect=None, note="AESV2 documents decrypted with RC4 — value-level method selection; expected to be missed by structure rules unless TABLE covers from_password")
 
+# ------------------------------------------------------------------ C05
+m("M05a_swap_pred", ["C05"], [("pdf/src/enc.rs", "            1 => Ok(PredictorType::Sub),\n            2 => Ok(PredictorType::Up),", "            2 => Ok(PredictorType::Sub),\n            1 => Ok(PredictorType::Up),")], expect="C05-TABLE")
+m("M05b_rl_256", ["C05"], [("pdf/src/enc.rs", "let copy = 257 - length as usize;", "let copy = 256 - length as usize;")], expect="C05-TABLE")
+m("M05c_lzw_as_flate", ["C05"], [("pdf/src/enc.rs", '"LZWDecode" => StreamFilter::LZWDecode (LZWFlateParams::from_primitive(params, r)?),', '"LZWDecode" => StreamFilter::FlateDecode (LZWFlateParams::from_primitive(params, r)?),')], expect="C05-SIB")
+m("M05d_params_get0", ["C05"], [("pdf/src/object/stream.rs", "let params = match decode_params.get(i) {\n                Some(Some(params))", "let params = match decode_params.get(0) {\n                Some(Some(params))")], expect="C05-G-pair")
+m("M05e_a85_alphabet", ["C05"], [("pdf/src/enc.rs", "b @ 0x21 ..= 0x75 => Some(b - 0x21),", "b @ 0x21 ..= 0x74 => Some(b - 0x21),")], expect="C05-TABLE")
+m("M05f_chain_rev", ["C05"], [("pdf/src/file.rs", "        for filter in filters {\n            data = t!(decode(&data, filter), filter);", "        for filter in filters.iter().rev() {\n            data = t!(decode(&data, filter), filter);")], expect="C05-G-chain")
+m("M05g_rl_eod", ["C05"], [("pdf/src/enc.rs", "        } else if length >= 129 {", "        } else if length >= 128 {")], expect="C05-TABLE", note="128 no longer ends the data")
+m("M05h_avg_reads_upleft", ["C05"], [("pdf/src/enc.rs", "((out[i - bpp] as i16 + prev[i] as i16) / 2) as u8", "((out[i - bpp] as i16 + prev[i - bpp] as i16) / 2) as u8")], expect="C05-TABLE-pred")
+m("M05i_dispatch_hex85", ["C05"], [("pdf/src/enc.rs", "        StreamFilter::ASCII85Decode => decode_85(data),\n        StreamFilter::LZWDecode(ref params) => lzw_decode", "        StreamFilter::ASCII85Decode => decode_hex(data),\n        StreamFilter::LZWDecode(ref params) => lzw_decode")], expect="C05-TABLE-dec")
+m("M05j_writer_name", ["C05"], [("pdf/src/object/stream.rs", 'StreamFilter::ASCII85Decode => "ASCII85Decode",', 'StreamFilter::ASCII85Decode => "ASCII85",')], expect="C05-SIB")
+m("M05k_stream_data_first_only", ["C05"], [("pdf/src/object/stream.rs", "                    for filter in filters {\n                        data = t!(decode(&data, filter), filter).into();", "                    for filter in filters {\n                        data = t!(decode(&**self_data, filter), filter).into();"),
+   ("pdf/src/object/stream.rs", "                    let mut data: Cow<[u8]> = (&**data).into();", "                    let self_data = data;\n                    let mut data: Cow<[u8]> = (&**data).into();")], expect="C05-G-chain", note="every filter applied to the original bytes")
+m("M05l_hex_ws", ["C05"], [("pdf/src/enc.rs", ".filter(|&b| !matches!(b, 0 | 9 | 10 | 12 | 13 | 32))", ".filter(|&b| !matches!(b, 9 | 10 | 12 | 13 | 32))")], expect="C05-TABLE")
+
+# ------------------------------------------------------------------ C16
+m("M16a_no_finish", ["C16"], [("pdf/src/enc.rs", "    let mut encoder = Encoder::new(Vec::new()).unwrap();\n    encoder.write_all(data).unwrap();\n    encoder.finish().into_result().unwrap()",
+   "    let mut encoder = Encoder::new(Vec::new()).unwrap();\n    encoder.write_all(data).unwrap();\n    encoder.into_inner()")], expect="C16-TS")
+m("M16b_a85_as_hex", ["C16"], [("pdf/src/enc.rs", "StreamFilter::ASCII85Decode => Ok(encode_85(data)),", "StreamFilter::ASCII85Decode => Ok(encode_hex(data)),")], expect="C16-SIB")
+m("M16c_lzw_lsb", ["C16"], [("pdf/src/enc.rs", "    Encoder::new(BitOrder::Msb, 9)\n        .into_stream(&mut compressed)", "    Encoder::new(BitOrder::Lsb, 9)\n        .into_stream(&mut compressed)")], expect="C16-SIB-lzw")
+m("M16d_lzw_early", ["C16"], [("pdf/src/enc.rs", "    if params.early_change != 0 {\n        bail!(\"encoding early_change != 0 is not supported\");\n    }", "    if params.early_change == 0 {\n        bail!(\"encoding early_change == 0 is not supported\");\n    }")],
+  expect="C16-SIB-lzw", note="encoder without early change used for EarlyChange=1 streams")
+m("M16e_hex_upper_g", ["C16"], [("pdf/src/enc.rs", "        10 ..= 15 => b'a' - 10 + c,", "        10 ..= 15 => b'b' - 10 + c,")], expect="C16-SIB-hex")
+m("M16f_a85_z_tail", ["C16"], [("pdf/src/enc.rs", "        c[.. r.len()].copy_from_slice(r);\n        let out = base85_chunk(c);\n        buf.extend_from_slice(&out[.. r.len() + 1]);",
+   "        c[.. r.len()].copy_from_slice(r);\n        if c == [0; 4] { buf.push(b'z'); } else {\n        let out = base85_chunk(c);\n        buf.extend_from_slice(&out[.. r.len() + 1]); }")], expect="C16-SIB-a85", note="z for a partial zero tail")
+m("M16g_deflate_raw", ["C16"], [("pdf/src/enc.rs", "    use libflate::zlib::Encoder;\n    let mut encoder = Encoder::new(Vec::new()).unwrap();", "    use libflate::deflate::Encoder;\n    let mut encoder = Ok::<_, std::io::Error>(Encoder::new(Vec::new())).unwrap();")], expect="C16-TS")
+m("M16h_a85_no_eod", ["C16"], [("pdf/src/enc.rs", "    buf.extend_from_slice(b\"~>\");\n    buf", "    if data.len() > 0 { buf.extend_from_slice(b\"~>\"); }\n    buf")], expect="C16-SIB-a85")
+m("M16i_hex_low_first", ["C16"], [("pdf/src/enc.rs", "        buf.push(encode_nibble(b >> 4));\n        buf.push(encode_nibble(b & 0xf));", "        buf.push(encode_nibble(b & 0xf));\n        buf.push(encode_nibble(b >> 4));")], expect="C16-SIB-hex")
+
 
 def gen_patch(mu):
     files = {}
